@@ -83,7 +83,9 @@ func runC19(c c19Case) Verdict {
 			return failf("decoy script does not load: %v", err)
 		}
 		for _, name := range c19Names {
-			decoy.AddFunction(name, func([]*variable.Value) (*variable.Value, error) { return variable.NewString("the decoy runner's own function"), nil })
+			decoy.AddFunction(name, func([]*variable.Value) (*variable.Value, error) {
+				return variable.NewString("the decoy runner's own function"), nil
+			})
 		}
 		_ = decoy.ConvertAndAddFunction("floor", func(x float64) float64 { return x / 3 })
 	}
